@@ -40,6 +40,9 @@ type JEv struct {
 	// connected: the next event (a disconnect of the same peer) arrives while this peer's
 	// announcement is still in flight (its first stream is being opened)
 	OverlapNext bool `json:"overlap_next,omitempty"`
+	// connected: the first stream this event opens takes this long to open (a peer behind a slow
+	// link that stays connected); every later one opens at once
+	SlowFirstMs int `json:"slow_first_ms,omitempty"`
 }
 type In struct {
 	Tag    string `json:"tag"`
@@ -78,6 +81,7 @@ type svc struct {
 	gate       chan struct{}
 	done       sync.WaitGroup
 	strArmed   bool
+	slowMs     int
 	strHit     chan struct{}
 	strRel     chan struct{}
 }
@@ -122,11 +126,23 @@ func (r *recStream) WriteMsg(_ context.Context, m proto.Message) error {
 func (r *recStream) Reset() error { return nil }
 func (r *recStream) Close() error { return nil }
 
-func (s *svc) NewStream(_ context.Context, p p2p.Peer, _ p2p.Header, _ p2p.StreamDesc) (p2p.Stream, error) {
+func (s *svc) NewStream(ctx context.Context, p p2p.Peer, _ p2p.Header, _ p2p.StreamDesc) (p2p.Stream, error) {
 	s.mu.Lock()
 	armed, hit, rel := s.strArmed, s.strHit, s.strRel
 	s.strArmed = false
+	slow := s.slowMs
+	s.slowMs = 0
 	s.mu.Unlock()
+	// as the node's host does: a stream is not opened on behalf of a context that is over
+	if slow > 0 {
+		select {
+		case <-time.After(time.Duration(slow) * time.Millisecond):
+		case <-ctx.Done():
+		}
+	}
+	if ctx.Err() != nil {
+		return nil, ctx.Err()
+	}
 	if armed { // one-shot gate: the announcement is held while the harness delivers another event
 		close(hit)
 		select {
@@ -261,6 +277,10 @@ func run(in In) (obs Obs) {
 		for _, a := range ev.LookupFail {
 			s.lookupFail[a] = true
 		}
+		s.slowMs = 0
+		if ev.T == "connected" {
+			s.slowMs = ev.SlowFirstMs
+		}
 		s.mu.Unlock()
 		switch ev.T {
 		case "connected":
@@ -386,6 +406,26 @@ func main() {
 		In{"disconnect-during-announcement", []JEv{{T: "connected", P: P(2, 2)}, {T: "connected", P: P(1, 1), OverlapNext: true}, {T: "disconnected", P: P(1, 1)}, {T: "connected", P: P(1, 1)}}},
 		In{"disconnect-during-announcement", []JEv{{T: "connected", P: P(1, 1), OverlapNext: true}, {T: "disconnected", P: P(1, 1)}}},
 	)
+	// a peer behind a slow link: the first stream of its connection event takes longer than every
+	// real-time bound the topology and discovery sources mention; it stays connected, and everyone
+	// is still told what the property says they are told
+	slows := []int{300}
+	for _, ms := range vh.Timers("pkg/topology", "pkg/discovery") {
+		d := ms + 800
+		if ms == 0 {
+			d = 6000
+		}
+		if d <= 25000 {
+			slows = append(slows, d)
+		}
+	}
+	for _, d := range slows {
+		fixed = append(fixed,
+			In{"slow-first-stream", []JEv{{T: "connected", P: P(1, 1)}, {T: "connected", P: P(2, 2)}, {T: "connected", P: P(3, 2)}, {T: "connected", P: P(4, 1), SlowFirstMs: d},
+				{T: "connected", P: P(5, 2)}}},
+			In{"slow-first-stream", []JEv{{T: "connected", P: P(2, 2)}, {T: "connected", P: P(3, 2)}, {T: "connected", P: P(4, 1), SlowFirstMs: d}, {T: "connected", P: P(6, 1)}}},
+		)
+	}
 	for _, in := range fixed {
 		out.Emit(in, run(in))
 	}
